@@ -5,10 +5,26 @@ ROOT = os.path.dirname(os.path.dirname(os.path.abspath(__file__)))
 BUILT = os.environ.get("BUILT", "").split()
 
 CHECKS = {
+ "C03": dict(engine="E1", cat="exploration", ref="DESIGN.md 5/C03",
+   technique="stateful property testing: proptest-generated operation histories over a pool of live values, drop-registry invariant + value model after every step, shrinking",
+   text="120k generated histories (quick) of up to 40 chained ownership-moving operations (42 kinds) over arrays of length 0..=12, iterators, Box/Vec/Box<[T]> and loose elements, with identity-carrying drop-tracked (heap payload), zero-sized tracked and plain elements; every step is checked against a value model and the drop registry. Held-on-explored.",
+   note="Panic-free histories only; lengths above 12 are covered per operation by C06/C09/C11; trusts the harness registry."),
+ "C04": dict(engine="E1", cat="fault_enumeration", ref="DESIGN.md 5/C04",
+   technique="fault injection enumerated over crash points: a panic injected at every call index of every closure / Clone / Default / source next() of each operation instance, oracle = drop registry",
+   text="For ~3k operation instances (operation x receiver form x N x element kinds) the K caller-code invocations are counted and the instance re-run with a panic at every k < K (sampled for K > 80); the panic must propagate and every element ever created must be dropped exactly once.",
+   note="Single fault per run, never during unwinding; N <= 1024; element kinds limited to the compiled set."),
+ "C05": dict(engine="E1", cat="fault_enumeration", ref="DESIGN.md 5/C05",
+   technique="fault injection enumerated over (operation, iterator position, argument, panicking element): a destructor that panics once, oracle = per-element drop count and observation-after-drop registry; the iterator is used again after the caught panic",
+   text="Complete enumeration for N <= 8 of every dropping operation from every iterator position with every argument and every choice of the one element whose destructor panics, plus 100k sampled cases up to N = 1024. No element may be dropped twice or observed after its drop; leaks are allowed.",
+   note="Single panicking destructor per run; a second panic during unwinding aborts by language rule and is out of scope."),
  "C06": dict(engine="E1", cat="exploration", ref="DESIGN.md 5/C06",
    technique="model-based property testing: exhaustive small-N operation grid + proptest operation sequences against a VecDeque reference model, with shrinking",
    text="Every iterator operation with every argument from every reachable (front, back) position for N<=8 is enumerated, plus 200k generated operation sequences up to N=1024, each compared call by call with a VecDeque model and with drop accounting of identity-carrying elements. Held-on-explored, not a proof.",
    note="Trusts VecDeque as the queue reference and the harness' drop registry; lengths outside the compiled lattice are not exercised."),
+ "C07": dict(engine="E1", cat="exploration", ref="DESIGN.md 5/C07",
+   technique="property testing with a scripted source: complete grid over (N, produced count, size_hint behaviour, fusedness, target, by-value/&mut) plus proptest-random cases; oracle computed from the script",
+   text="~70k cases: every produced count around N for 34 lengths, ten size_hint behaviours including lying ones, fused and non-fused sources, four collect targets, std TrustedLen sources, and a panic injected into every next() call for N<=12. Checks Ok iff exactly N, order, at most N+1 pulls, never polled after None, pulled items dropped exactly once.",
+   note="Exact poll counts are not asserted; only the lattice lengths are instantiated."),
 }
 
 def main():
